@@ -145,8 +145,36 @@ def path_defaults(ctx, job, box):
     return Check(now == exp, scenario, describe, label='default tab stops after %s are not exactly every 8th column below the width' % via)
 
 
+def path_resize(ctx, job, box):
+    """A width/height change between setting a stop and using it must not edit the stop set."""
+    prog, L = G['prog'], G['L']
+    eng = Engine(prog, ctx)
+    box['eng'] = eng
+    ss = SymScreen(ctx, eng, L, buffer='none', tabstops=job.params['nstops'], geom_max=(140, 3), margins='none',
+                   savepoints=0)
+    ses = Session(eng, L, screen=ss.value)
+    pre = ss.value
+    rl = sym_opt_u32(ctx, 'rl', 1, 3)
+    rc = sym_opt_u32(ctx, 'rc', 1, 140)
+    outcome, msg = 'ok', None
+    try:
+        ses.op('resize', rl, rc)
+    except Panic as e:
+        outcome, msg = 'panic', str(e)
+    post = ses.screen
+    sc0, describe = helpers(eng, L, pre, ses, lambda m: [['resize', c05.jval(m, rl), c05.jval(m, rc)]])
+    scenario = lambda m: sc0(m, post, outcome, msg)
+    if outcome == 'panic':
+        return Check(False, scenario, describe, outcome='panic', label='resize panics: %s' % msg)
+    v = ctx.bvvar('probe_col', 32)
+    was = to_z3bool(stdlib.map_contains(None, scr(L, pre, 'tabstops'), Int('u32', v)))
+    now = to_z3bool(stdlib.map_contains(None, scr(L, post, 'tabstops'), Int('u32', v)))
+    return Check(now == was, scenario, describe, label='resize edited the tab stops (only HTS/TBC/RIS may)')
+
+
 def jobs(tier):
     js = []
+    js.append(Job('resize/2stops', path_resize, nstops=2, prop=PROP))
     for n in ((0, 1, 2) if tier == 'quick' else (0, 1, 2, 3)):
         js.append(Job('tab/%dstops' % n, path_tab, nstops=n, prop=PROP))
     for op in ('set_tab_stop', 'clear_tab_stop'):
